@@ -17,6 +17,8 @@ From J5V.gen Require Id62Gen RulesGen.
 From J5V.proofs Require Import RulesProofs RulesGenProofs RegexProofs RulesRegexProofs.
 From J5V.model Require Import RulesRead RulesEnum RulesNested RulesNestedSem RulesOneof RulesInlineEnum.
 From J5V.proofs Require Import RulesNestedSemProofs RulesOneofProofs.
+From J5V.model Require Import RulesCompile.
+From J5V.proofs Require Import RulesCompileProofs.
 Import ListNotations.
 Local Open Scope N_scope.
 
@@ -25,46 +27,206 @@ Local Open Scope N_scope.
    decides the meaning and the published id62 pattern compiles and means 22
    alphanumerics ([engine_ok]), every
    enum whose value names are pairwise different (protobuf requires it), every
-   declaration the compiler accepts (entity.primaryKey only where schema.proto
+   declaration THE COMPILER ACCEPTS (entity.primaryKey only where schema.proto
    gives it a meaning: on a singular key property) and every value of the
    compiled field: the validator returns a verdict, and it accepts iff the
    declared rules hold. All of Z for integers, all Unicode strings, all byte
    strings, all float bit patterns, all lists and maps; plain / required /
-   optional / array / map forms; every rule present or absent. *)
-Definition C12_full_statement : Prop := c12_statement (fun _ _ => true).
+   optional / array / map forms; every rule of schema.proto present or absent —
+   the declaration is an [xprop] (model/RulesCompile.v): RulesDecl.prop plus integer
+   rules.multipleOf and MapField.Ext; its declared meaning [xrule_sem] is rule_sem
+   and "every integer is a multiple of multipleOf".
+   The compiler is [compile_prop]: the checks buildProperty / buildField run first
+   (multipleOf: not implemented; a pattern regexp.Compile refuses; uniqueItems on
+   message typed items — compile errors since /repo c0895b5, 42e49d9, 722ecd6),
+   then the writer. *)
+Definition C12_full_statement : Prop := c12_compiled_statement.
 
-(* REFUTED: two kinds of declarations compile to constraints the validator cannot
-   evaluate (both replay on the real compiler + protovalidate-go, KNOWN_FINDINGS.txt) *)
-Theorem C12_full_refuted : ~ C12_full_statement.
+Theorem C12_full : C12_full_statement.
+Proof. exact c12_compiled. Qed.
+Print Assumptions C12_full.
+
+(* ... and the validator never answers with an error on a compiled declaration *)
+Theorem C12_never_an_error :
+  forall re_ok re_match pat_sem, engine_ok re_ok re_match pat_sem ->
+  forall env idx x o fv,
+    wf_env env = true -> key_placement_ok (x_prop x) = true ->
+    compile_prop re_ok env idx x = Ok o -> fvalue_typed (x_prop x) fv = true ->
+    validate_sem re_ok re_match (defined_numbers env) o fv = VAccept \/
+    validate_sem re_ok re_match (defined_numbers env) o fv = VReject.
+Proof. exact c12_compiled_no_error. Qed.
+Print Assumptions C12_never_an_error.
+
+(* the front checks refuse exactly: a multipleOf, or a declaration the validator
+   could not evaluate ([evaluable]: every pattern compiles, no uniqueItems = true on
+   message typed items) *)
+Theorem C12_front_checks_exact : forall re_ok x,
+  front_checks re_ok x = Ok tt <-> (x_mult x = None /\ evaluable re_ok (x_prop x) = true).
+Proof. exact front_checks_spec. Qed.
+Print Assumptions C12_front_checks_exact.
+
+Theorem C12_multiple_of_rejected : forall re_ok env idx x,
+  x_mult x <> None -> exists e, compile_prop re_ok env idx x = Err e.
+Proof. exact compile_multiple_of_refused. Qed.
+Print Assumptions C12_multiple_of_rejected.
+
+Theorem C12_unique_on_messages_rejected : forall re_ok env idx x,
+  unique_on_messages (x_prop x) = true -> forall o, compile_prop re_ok env idx x <> Ok o.
+Proof. exact compile_unique_on_messages_refused. Qed.
+Print Assumptions C12_unique_on_messages_rejected.
+
+Theorem C12_bad_pattern_rejected : forall re_ok env idx x p,
+  pattern_of (item_of (p_ty (x_prop x))) = Some p -> re_ok p = false ->
+  forall o, compile_prop re_ok env idx x <> Ok o.
+Proof. exact compile_bad_pattern_refused. Qed.
+Print Assumptions C12_bad_pattern_rejected.
+
+(* on the declarations of RulesDecl alone the compiler is the writer behind the checks *)
+Theorem C12_compiler_is_checked_writer : forall re_ok env idx d,
+  evaluable re_ok d = true -> enum_filters_ok env (item_of (p_ty d)) = true ->
+  compile_prop re_ok env idx (plain d) = write_prop env idx d.
+Proof. exact compile_plain. Qed.
+Print Assumptions C12_compiler_is_checked_writer.
+
+(* whole messages of a compiled object (link step included: compile_object): accepted
+   iff every property's declared rules hold; no hypothesis besides "it compiles" *)
+Theorem C12_message_full :
+  forall re_ok re_match pat_sem, engine_ok re_ok re_match pat_sem ->
+  forall env xs os fvs,
+    wf_env env = true ->
+    forallb key_placement_ok (map x_prop xs) = true ->
+    compile_object re_ok env xs = Ok os ->
+    typed_obj (map x_prop xs) fvs = true ->
+    (validate_obj re_ok re_match (defined_numbers env) os fvs = VAccept <-> xrule_obj pat_sem env xs fvs) /\
+    (validate_obj re_ok re_match (defined_numbers env) os fvs = VReject <-> ~ xrule_obj pat_sem env xs fvs).
+Proof. exact c12_compiled_object. Qed.
+Print Assumptions C12_message_full.
+
+(* the validity premise: a compiled object has pairwise different proto field names
+   (strcase.ToSnake of the property names); fooBar next to foo_bar does not link *)
+Theorem C12_compiled_object_names : forall re_ok env xs os,
+  compile_object re_ok env xs = Ok os -> NoDup (proto_names xs).
+Proof. exact compile_object_names. Qed.
+Print Assumptions C12_compiled_object_names.
+
+(* CLOSED instance, no engine parameter left: regexp.Compile = the RE2-fragment parser,
+   the matcher = the derivative matcher, the meaning of a pattern = the declarative
+   relation pattern_sem (the pattern parses to an expression r and r finds a match) *)
+Theorem C12_full_concrete : forall env idx x o fv,
+  wf_env env = true -> key_placement_ok (x_prop x) = true ->
+  compile_prop re_frag_ok env idx x = Ok o -> fvalue_typed (x_prop x) fv = true ->
+  (validate_sem re_frag_ok re_frag_match (defined_numbers env) o fv = VAccept <-> xrule_sem pattern_sem env x fv) /\
+  (validate_sem re_frag_ok re_frag_match (defined_numbers env) o fv = VReject <-> ~ xrule_sem pattern_sem env x fv).
+Proof. exact c12_compiled_concrete. Qed.
+Print Assumptions C12_full_concrete.
+
+(* what [patterns_in_fragment] adds to it: the pattern of a compiled declaration inside
+   the fragment IS an expression r, and its meaning in C12_full_concrete is the
+   declarative matching relation of r. (Outside the fragment — valid RE2 the parser does
+   not model — pattern_sem is empty: nothing is claimed about Go's engine there.) *)
+Theorem C12_compiled_pattern_meaning : forall env idx x o p,
+  compile_prop re_frag_ok env idx x = Ok o ->
+  patterns_in_fragment (x_prop x) = true ->
+  pattern_of (item_of (p_ty (x_prop x))) = Some p ->
+  exists r, re_parse p = Parsed r /\ forall s, pattern_sem p s <-> search r s.
+Proof. exact compiled_pattern_meaning. Qed.
+Print Assumptions C12_compiled_pattern_meaning.
+
+(* ---- required presence, per field kind, as the validator sees it (the protobuf-level
+   reading; the JSON-level distinction "absent vs explicit default" does not exist in a
+   compiled message) -------------------------------------------------------------------
+   (a) a singular field that CAN be absent — declared optional, or message typed (object,
+       oneof, timestamp, date, decimal, any): absent is rejected iff the property must be
+       set (required, or a primary key), whatever its other rules say *)
+Theorem C12_presence_absent :
+  forall re_ok re_match pat_sem, engine_ok re_ok re_match pat_sem ->
+  forall env idx x o,
+  wf_env env = true -> key_placement_ok (x_prop x) = true ->
+  compile_prop re_ok env idx x = Ok o -> fvalue_typed (x_prop x) FAbsent = true ->
+  (must_be_set (x_prop x) -> validate_sem re_ok re_match (defined_numbers env) o FAbsent = VReject) /\
+  (~ must_be_set (x_prop x) -> validate_sem re_ok re_match (defined_numbers env) o FAbsent = VAccept).
+Proof. exact presence_absent. Qed.
+Print Assumptions C12_presence_absent.
+
+(* (b) a singular scalar NOT declared optional has no presence: the validator reads the
+       default value where nothing is set — "absent" and "holds the default" are one message
+       (so required rejects 0 / "" / false: C12_required_scalar_rejects_default below) *)
+Theorem C12_presence_none_reads_default :
+  forall re_ok re_match defined o,
+  has_presence o = false ->
+  validate_sem re_ok re_match defined o FAbsent
+  = validate_sem re_ok re_match defined o (FOne (zero_value (fo_kind o))).
+Proof. exact presence_none_reads_default. Qed.
+Print Assumptions C12_presence_none_reads_default.
+
+(* (c) repeated fields (arrays, maps): "set" means non-empty; a required one rejects the
+       empty list / map *)
+Theorem C12_presence_empty_array :
+  forall re_ok re_match pat_sem, engine_ok re_ok re_match pat_sem ->
+  forall env idx x o r sf t,
+  wf_env env = true -> key_placement_ok (x_prop x) = true ->
+  compile_prop re_ok env idx x = Ok o -> p_ty (x_prop x) = PArray r sf t ->
+  must_be_set (x_prop x) ->
+  validate_sem re_ok re_match (defined_numbers env) o (FMany []) = VReject.
+Proof. exact presence_empty_array. Qed.
+Print Assumptions C12_presence_empty_array.
+
+Theorem C12_presence_empty_map :
+  forall re_ok re_match pat_sem, engine_ok re_ok re_match pat_sem ->
+  forall env idx x o r t,
+  wf_env env = true -> key_placement_ok (x_prop x) = true ->
+  compile_prop re_ok env idx x = Ok o -> p_ty (x_prop x) = PMap r t ->
+  must_be_set (x_prop x) ->
+  validate_sem re_ok re_match (defined_numbers env) o (FMap []) = VReject.
+Proof. exact presence_empty_map. Qed.
+Print Assumptions C12_presence_empty_map.
+
+(* (d) required together with optional does not compile; (e) the options of a oneof have
+       presence each: C12_oneof_members below *)
+Theorem C12_presence_required_and_optional :
+  forall re_ok env idx x,
+  p_req (x_prop x) = true -> p_opt (x_prop x) = true ->
+  forall o, compile_prop re_ok env idx x <> Ok o.
+Proof. exact presence_required_and_optional. Qed.
+Print Assumptions C12_presence_required_and_optional.
+
+(* ---- why the checks are there: the emission stage on its own ------------------------
+   [write_prop] (the writer without the front checks) does NOT satisfy the statement:
+   the two classes below were compiled by /repo before 722ecd6 / 42e49d9 and were known
+   findings; a regression that removes a check re-exposes them (the correspondence
+   then sees a declaration of class refused-* compile). *)
+Definition C12_emission_statement : Prop := c12_statement (fun _ _ => true).
+
+Theorem C12_emission_alone_refuted : ~ C12_emission_statement.
 Proof. exact c12_full_refuted. Qed.
-Print Assumptions C12_full_refuted.
+Print Assumptions C12_emission_alone_refuted.
 
 (* (1) uniqueItems = true on an array of message-typed items (object, oneof,
    timestamp, date, decimal, any): repeated.unique has no overload for messages;
    one item is enough. The declared rules hold (a single item is unique), the
    validator returns a runtime error. For every engine. *)
-Theorem C12_unique_messages_refuted :
+Theorem C12_emission_unique_messages :
   forall re_ok re_match pat_sem, exists o,
     write_prop (EE [] None []) 0 w_unique_obj = Ok o /\
     fvalue_typed w_unique_obj (FMany [VMsg 0]) = true /\
     rule_sem pat_sem (EE [] None []) w_unique_obj (FMany [VMsg 0]) /\
     validate_sem re_ok re_match (defined_numbers (EE [] None [])) o (FMany [VMsg 0]) = VError ERuntime.
 Proof. exact c12_unique_messages_refuted. Qed.
-Print Assumptions C12_unique_messages_refuted.
+Print Assumptions C12_emission_unique_messages.
 
-(* (2) a pattern the engine cannot compile: the compiler copies it, and the
+(* (2) a pattern the engine cannot compile: the writer copies it, and the
    validator returns a compilation error for every value (even an absent one) *)
-Theorem C12_bad_pattern_refuted :
+Theorem C12_emission_bad_pattern :
   forall re_ok re_match p, re_ok p = false ->
   forall env idx name l desc, exists o,
     write_prop env idx (P name false false (PSingle (TStr None (Some (SR (Some p) None None)) l)) desc) = Ok o /\
     forall fv, validate_sem re_ok re_match (defined_numbers env) o fv = VError ECompile.
 Proof. exact c12_bad_pattern_refuted. Qed.
-Print Assumptions C12_bad_pattern_refuted.
+Print Assumptions C12_emission_bad_pattern.
 
 (* ... and it poisons the whole message type: every message, whatever its
    values, gets the compilation error *)
-Theorem C12_bad_pattern_poisons_message :
+Theorem C12_emission_bad_pattern_poisons_message :
   forall re_ok re_match, re_ok Id62Gen.pattern_string = true ->
   forall env ds idx os fvs,
     write_props_from env idx ds = Ok os ->
@@ -72,10 +234,11 @@ Theorem C12_bad_pattern_poisons_message :
     existsb (fun d => negb (fty_patterns_ok re_ok (elem_ty (p_ty d)))) ds = true ->
     validate_obj re_ok re_match (defined_numbers env) os fvs = VError ECompile.
 Proof. exact c12_bad_pattern_message. Qed.
-Print Assumptions C12_bad_pattern_poisons_message.
+Print Assumptions C12_emission_bad_pattern_poisons_message.
 
-(* What is PROVED: the full statement for every declaration that is [evaluable]
-   (all its patterns compile; no uniqueItems = true on message-typed items). *)
+(* The writer's half of C12_full: the statement for the emission stage on every
+   declaration that is [evaluable] (all its patterns compile; no uniqueItems = true
+   on message-typed items) — what the front checks let through. *)
 Theorem C12_partial : c12_statement evaluable.
 Proof. exact c12_partial. Qed.
 Print Assumptions C12_partial.
